@@ -1,6 +1,7 @@
 package world
 
 import (
+	"bytes"
 	"encoding/json"
 	"fmt"
 	"sort"
@@ -123,6 +124,9 @@ func (w *World) verifyLight(l *Light, s consensus.State, led *ref.Ledger, ctx st
 }
 
 func (w *World) lightsApplied(n *Node, e *blockEntry, au consensus.ApplyUpdate) {
+	if w.cfg.Profile == "C10" || (w.cfg.Profile == "C20" && e.height%4 == 0) {
+		w.hostileUpdateJSON(au)
+	}
 	for _, l := range w.lights {
 		if l.node != n.idx {
 			continue
@@ -278,5 +282,44 @@ func (w *World) lightsReverted(n *Node, e *blockEntry, ru consensus.RevertUpdate
 		}
 		w.stats.Inc("reach.light-revert")
 		w.verifyLight(l, parent.state, w.ledgers[parent.id], fmt.Sprintf("reverting block %s (height %d)", short(e.id), e.height))
+	}
+}
+
+// hostileUpdateJSON hands a client's parser the update of a block with a tree
+// height no accumulator has (a careless or hostile server): it answers with an
+// error, not a panic.
+func (w *World) hostileUpdateJSON(au consensus.ApplyUpdate) {
+	js, err := json.Marshal(au)
+	if err != nil {
+		return
+	}
+	for _, key := range []string{`"64"`, `"-1"`, `"1000000"`} {
+		for _, member := range []string{`"updatedLeaves":{`, `"treeGrowth":{`} {
+			i := bytes.Index(js, []byte(member))
+			if i < 0 {
+				continue
+			}
+			j := i + len(member)
+			var bad []byte
+			if js[j] == '}' {
+				bad = append(append(append([]byte(nil), js[:j]...), []byte(key+`:[]`)...), js[j:]...)
+			} else if k := bytes.IndexByte(js[j:], ':'); k > 0 {
+				bad = append(append(append([]byte(nil), js[:j]...), []byte(key)...), js[j+k:]...)
+			}
+			if bad == nil {
+				continue
+			}
+			var au3 consensus.ApplyUpdate
+			if p := guard(func() { _ = json.Unmarshal(bad, &au3) }); p != "" {
+				w.violate("C10", "json-unmarshal-panic", fmt.Sprintf("json.Unmarshal of an ApplyUpdate whose %s names tree height %s panicked: %s", member[:len(member)-2], key, p))
+				return
+			}
+			var ru3 consensus.RevertUpdate
+			if p := guard(func() { _ = json.Unmarshal(bad, &ru3) }); p != "" {
+				w.violate("C10", "json-unmarshal-panic", fmt.Sprintf("json.Unmarshal of a RevertUpdate whose %s names tree height %s panicked: %s", member[:len(member)-2], key, p))
+				return
+			}
+			w.stats.Inc("probe.light.json-update-hostile-height")
+		}
 	}
 }
